@@ -2,6 +2,8 @@
 //! op 1 Poll a | 2 Drop a | 3 Advance a | 4 Complete a b (0 ok, 1 err, 2 panic in the response future,
 //!   3 synchronous panic inside the inner service's call()) | 5 call() without a poll |
 //!   6 call() for every caller (scripted and probe) that has no future yet, then EVERY service handle is dropped
+//! cap >= 10^15 is a sentinel for a capacity at / above tokio's Semaphore::MAX_PERMITS (10^15 usize::MAX,
+//!   10^15+1 MAX_PERMITS+1, 10^15+2 MAX_PERMITS; builder route 0 only); the probe then has 8 fresh callers
 //! durations (max_wait, Advance): a value below 2^40 is in ms, 2^40 + k is k ns (Lib/TokioTime.ns_of); a whole-ms
 //!   Advance moves the clocks 1 ms at a time, any other in one jump
 //! flags (none of them exists in the model: every route yields (cap, max_wait), every handle shares the semaphore):
@@ -71,13 +73,18 @@ async fn jump(d: Duration) {
 }
 
 fn run(s: &[i128]) -> Vec<i128> {
-    let cap = zn(s, 0) as usize;
+    const CAP_SENTINEL: i128 = 1_000_000_000_000_000;
+    let big = zn(s, 0) >= CAP_SENTINEL;
+    let cap: usize = if big {
+        match zn(s, 0) - CAP_SENTINEL { 1 => (usize::MAX >> 3) + 1, 2 => usize::MAX >> 3, _ => usize::MAX }
+    } else { zn(s, 0).max(0) as usize };
+    let probe = if big { 8 } else { cap + 1 };
     let mw = zn(s, 1);
     let nf = zn(s, 2);
     let n = nf.rem_euclid(1000) as usize;
     let flags = nf.div_euclid(1000);
     let (route, handle, listen, keep) = (flags % 8, (flags / 8) % 4, (flags / 32) % 2, (flags / 64) % 2);
-    let total = n + cap + 1;
+    let total = n + probe;
     let rt = paused_rt();
     rt.block_on(async move {
         let g = GatedInner::new();
